@@ -57,6 +57,58 @@ pub fn plant_inf(pl: &mut gen::Planted, rng: &mut Rng, bound: f64) -> usize {
     cnt
 }
 
+/// loosen every nonnegative / second-order / PSD constraint by a multiple t of the cone's identity element
+/// (b += t e, s0 += t e): the planted point stays strictly feasible with slacks of size t, so the initial point of the
+/// solver already has a comfortable margin in those cones; the planted dual value is recomputed (weak duality still
+/// sandwiches the optimum between d0 and p0)
+pub fn loosen(pl: &mut gen::Planted, rng: &mut Rng) -> bool {
+    use vkit::cones::{cone_ranges, ConeT};
+    let t = 10f64.powf(rng.range(1.0, 3.0));
+    let cones = pl.problem.cones.clone();
+    let mut any = false;
+    for (c, r) in cones.iter().zip(cone_ranges(&cones)) {
+        if r.is_empty() {
+            continue;
+        }
+        match c {
+            ConeT::NonnegativeConeT(_) => {
+                for i in r {
+                    if pl.problem.b[i] < 1e19 {
+                        pl.problem.b[i] += t;
+                        pl.s0[i] += t;
+                    }
+                }
+                any = true;
+            }
+            ConeT::SecondOrderConeT(_) => {
+                pl.problem.b[r.start] += t;
+                pl.s0[r.start] += t;
+                any = true;
+            }
+            #[cfg(feature = "sdp")]
+            ConeT::PSDTriangleConeT(n) => {
+                // packed upper triangle by columns: diagonal entries at triangular numbers - 1
+                for k in 0..*n {
+                    let idx = r.start + (k + 1) * (k + 2) / 2 - 1;
+                    pl.problem.b[idx] += t;
+                    pl.s0[idx] += t;
+                }
+                any = true;
+            }
+            _ => {}
+        }
+    }
+    if any {
+        let ps = pl.problem.P_sym();
+        let px = ps.matvec(&pl.x0);
+        let xpx: f64 = (0..pl.x0.len()).map(|j| px[j] * pl.x0[j]).sum();
+        let bound = clarabel::get_infinity();
+        let bc: Vec<f64> = pl.problem.b.iter().map(|v| v.min(bound)).collect();
+        pl.d0 = -bc.iter().zip(&pl.z0).map(|(a, b)| a * b).sum::<f64>() - 0.5 * xpx;
+    }
+    any
+}
+
 pub fn run(ctx: &mut Ctx) {
     let wl = "planted";
     let total = if ctx.flavour == "miri" { ctx.count(24, 60) } else { ctx.count(1500, 25000) };
@@ -70,6 +122,9 @@ pub fn run(ctx: &mut Ctx) {
         let o = gen_opts(ctx, &mut rng);
         let mut pl = if rng.bool(0.85) { gen::planted_wellposed(&mut rng, &o) } else { gen::planted(&mut rng, &o) };
         let ninf = if rng.bool(0.15) { plant_inf(&mut pl, &mut rng, bound) } else { 0 };
+        if rng.bool(0.2) && loosen(&mut pl, &mut rng) {
+            ctx.bump("instances_with_loose_constraints");
+        }
         let st = gen::random_settings(&mut rng, ctx.flavour != "miri");
         let p = &pl.problem;
         let res = match problem::run(p, &st) {
